@@ -119,16 +119,33 @@ def run(ctx, pid="C09"):
         return {"model_checking": mc, "runs_validated": 0, "driver": "ended by a panic inside rtimer"}
     pkgf = os.path.join(tdir, "pkg.ndjson")
     sh([exe, "pkg", "-out", pkgf, "-max", str(ctx.pick(400, 2000))], timeout=600)
-    failing = {(size, f["event"].get("e")) for size, _, _, fails, _ in results for f in fails}
+    def bound_rejects(size, trace, tag):
+        """Second judgement of a trace the exact specification rejected: does it break what C09 needs of the wheel?"""
+        acc, fails, _ = tracecheck.validate(ctx, SPEC, "Trace_TimeWheelBound", tmpl("TraceBound.cfg.tmpl", S=size), [trace],
+                                            name="tw-bound-" + tag, timeout=300)
+        return fails[0] if fails else None
+
+    def judge(results_, tag):
+        """[(size, trace, exact failure, bound failure or None)] for the traces the exact specification rejects."""
+        out = []
+        for size, traces, acc, fails, st in results_:
+            for k, f in enumerate(fails):
+                t = traces[f["index"]]
+                out.append((size, t, f, bound_rejects(size, t, "%s-%d-%d" % (tag, size, k))))
+        return out
+
+    judged = judge(results, "a")
     again = set()
-    if failing:
+    if any(b for _, _, _, b in judged):
         # the runs are real-time: a rejection counts only when a second recording is rejected at the same kind of event
         _, r2 = record_and_validate(ctx.seed + 1000, "b")
-        again = {f["event"].get("e") for _, _, _, fails, _ in (r2 or []) for f in fails}
-        ctx.log("timing wheel: rejected", sorted(failing), "second recording rejected at", sorted(again))
+        again = {b["event"].get("e") for _, _, _, b in judge(r2 or [], "b") if b}
+        ctx.log("timing wheel: bound broken at", sorted({b["event"].get("e") for _, _, _, b in judged if b}),
+                "second recording:", sorted(again))
     validated = events = tstates = 0
     kinds = {}
     unreproduced = []
+    deviations = {}
     for size, traces, acc, fails, st in results:
         validated += len(traces)
         tstates += st["states"]
@@ -136,26 +153,45 @@ def run(ctx, pid="C09"):
             events += len(t)
             for e in t:
                 kinds[e["e"]] = kinds.get(e["e"], 0) + 1
-        for f in fails:
-            ev = f["event"]
-            if ev.get("e") not in again:
-                unreproduced.append({"size": size, "event": ev})
-                continue
-            ctx.violate("%s:timewheel:trace-rejected:%s" % (pid, ev.get("e")),
-                        "recorded run of the real timing wheel (%d slots) is not a behaviour of TimeWheel: event %s cannot "
-                        "happen there (invariant: %s); a second recording is rejected at the same kind of event"
-                        % (size, json.dumps(ev), f["invariant"]),
-                        {"kind": "trace", "size": size, "trace": traces[f["index"]], "offset": f["offset"],
-                         "invariant": f["invariant"]})
+    for size, t, f, b in judged:
+        ev = f["event"]
+        if b is None:
+            # the wheel does not follow TimeWheel.tla's arithmetic but keeps the bound: nothing C09 says is broken
+            d = deviations.setdefault("%s:%s" % (ev.get("e"), ",".join(f["invariant"]) or "no-step"), {"count": 0, "example": {"size": size, "event": ev}})
+            d["count"] += 1
+            continue
+        bev = b["event"]
+        if bev.get("e") not in again:
+            unreproduced.append({"size": size, "event": bev})
+            continue
+        what = ("after-panics-for-a-timeout-that-fits" if bev.get("e") == "AfterPanic"
+                else "waiter-not-released-by-its-timeout-plus-a-tick")
+        ctx.violate("%s:timewheel:%s" % (pid, what),
+                    "recorded run of the real timing wheel (%d slots): %s -- a wait asked for with quotient q is not over by the "
+                    "(q+2)-th tick after the one before the call, or a timeout that fits into the wheel is answered with a panic; "
+                    "rejected by TimeWheel (at %s) and by the bound C09 needs (at %s), in two recordings"
+                    % (size, what, json.dumps(ev), json.dumps(bev)),
+                    {"kind": "trace", "size": size, "trace": t, "offset": b["offset"]})
+    if deviations:
+        ctx.notes.append("timing wheel: %d recorded run(s) do not follow TimeWheel.tla's slot arithmetic but keep the bound C09 needs "
+                         "(observation, not a verdict): %s" % (sum(d["count"] for d in deviations.values()), sorted(deviations)))
     for need in ("After", "AfterPanic", "Tick", "Fired"):
         if not kinds.get(need):
             raise Inconclusive("timing wheel runs contain no %s event" % need)
     # ---- 3. the package-level arithmetic, judged by TLC
     res = oracle.judge(ctx, SPEC, "Oracle_TimeWheel", "Oracle.cfg", [pkgf], par=1, timeout=600, name="tw-oracle")
-    for p, k, rec in res["bad"][:5]:
-        ctx.violate("%s:timewheel:after:%s" % (pid, "panic" if rec["panic"] else "slot"),
-                    "NewTimeWheel(t/a, a+1).After(t) with t=%d ns, accuracy a=%d: panic=%s, %s slots ahead; the reference says otherwise"
-                    % (rec["t"], rec["a"], rec["panic"], rec["ahead"]), {"kind": "pkg", "record": rec})
+    pkg_dev = 0
+    for p, k, rec in res["bad"]:
+        if rec["panic"] and rec["a"] > 0 and rec["t"] > 0 and rec["t"] % rec["a"] == 0:
+            # every whole number of milliseconds is a multiple of the accuracy: a panic there ends a client's process
+            ctx.violate("%s:timewheel:after-panics-for-a-multiple-of-the-accuracy" % pid,
+                        "NewTimeWheel(t/a, a+1).After(t) with t=%d ns, accuracy a=%d panics; the reference (PkgLemma) says every "
+                        "multiple of the accuracy is served" % (rec["t"], rec["a"]), {"kind": "pkg", "record": rec})
+        else:
+            pkg_dev += 1
+    if pkg_dev:
+        ctx.notes.append("timing wheel: %d (duration, accuracy) pairs outside the multiples of the accuracy are treated differently from "
+                         "TimeWheel.tla's PkgPanics / Pos (observation)" % pkg_dev)
     # ---- 4. binding self-test: corrupted traces must be rejected
     selftest = {}
     base = [t for size, traces, _, _, _ in results if size == 3 for t in traces]
@@ -173,6 +209,37 @@ def run(ctx, pid="C09"):
         selftest[kind] = "rejected" if fails else "ACCEPTED"
         if not fails:
             raise Inconclusive("timing wheel binding self-test failed: corrupted trace (%s) was accepted" % kind)
+    # the bound specification rejects what it must: a due waiter that never fires, a fitting timeout answered with a panic
+    def bound_candidates(kind):
+        for size, traces, _, _, _ in results:
+            for t in traces:
+                if kind == "never-fires":
+                    nt = sum(1 for e in t if e["e"] == "Tick")
+                    seen = 0
+                    for k, e in enumerate(t):
+                        if e["e"] == "Tick":
+                            seen += 1
+                        if e["e"] == "After" and seen + e["q"] + 2 <= nt and any(x["e"] == "Fired" and x["w"] == e["w"] for x in t):
+                            yield size, [x for x in t if not (x["e"] == "Fired" and x["w"] == e["w"])]
+                            break
+                else:
+                    for k, e in enumerate(t):
+                        if e["e"] == "After" and e["q"] < size:
+                            bad = [dict(x) for x in t if not (x["e"] == "Fired" and x["w"] == e["w"])]
+                            bad[k] = {"e": "AfterPanic", "w": e["w"], "q": e["q"]}
+                            yield size, bad
+                            break
+    for kind in ("never-fires", "panic-for-a-timeout-that-fits"):
+        cand = next(bound_candidates(kind), None)
+        if cand is None:
+            raise Inconclusive("timing wheel: no run suitable for the bound self-test (%s)" % kind)
+        if bound_rejects(cand[0], cand[1], "selftest-" + kind[:5]) is None:
+            raise Inconclusive("timing wheel bound self-test failed: corrupted trace (%s) was accepted" % kind)
+        selftest["bound:" + kind] = "rejected"
     return {"model_checking": mc, "runs_validated": validated, "events": events, "event_kinds": kinds,
             "trace_states": tstates, "pkg_records": res["total"], "selftest": selftest,
-            "rejections_not_reproduced": unreproduced}
+            "rejections_not_reproduced": unreproduced, "deviations_that_keep_the_bound": deviations,
+            "pkg_deviations": pkg_dev,
+            "verdict_rule": "a run rejected by Trace_TimeWheel is judged again by Trace_TimeWheelBound (the wait is over by the "
+                            "(q+2)-th tick, a fitting timeout is not answered with a panic); only what both reject, in two recordings, "
+                            "is a violation; a panic raised inside rtimer that ends the driver twice is one as well"}
